@@ -2,6 +2,8 @@ package wsref
 
 import (
 	"bytes"
+	"compress/flate"
+	"io"
 	"fmt"
 	"math/rand"
 	"testing"
@@ -40,4 +42,35 @@ func TestDeflateRoundTrip(t *testing.T) {
 		}
 	}
 	fmt.Println("ok")
+}
+
+func TestBackrefProbe(t *testing.T) {
+	dict := make([]byte, 32768)
+	for i := range dict {
+		dict[i] = byte(i*7 + i/251)
+	}
+	for _, c := range []struct{ lits, dist, length int }{{0, 1, 3}, {0, 32768, 258}, {0, 300, 257}, {0, 5, 227}, {0, 24577, 10}, {0, 4096, 130}, {3, 100, 66}, {0, 7, 40}, {0, 12288, 11}, {2, 2, 258}} {
+		lits := []byte("xyz")[:c.lits]
+		p := BackrefProbe(lits, c.dist, c.length)
+		stream := append(append([]byte{}, p...), 0, 0, 0xff, 0xff, 1, 0, 0, 0xff, 0xff)
+		got, err := io.ReadAll(flate.NewReaderDict(bytes.NewReader(stream), dict))
+		if err != nil {
+			t.Fatalf("%+v: with history: %v", c, err)
+		}
+		hist := append(append([]byte{}, dict...), lits...)
+		want := append([]byte{}, lits...)
+		for i := 0; i < c.length; i++ {
+			hist = append(hist, hist[len(hist)-c.dist])
+			want = append(want, hist[len(hist)-1])
+		}
+		if !bytes.Equal(got, want) {
+			t.Fatalf("%+v: got %x want %x", c, got, want)
+		}
+		if c.dist > c.lits {
+			_, err = io.ReadAll(flate.NewReader(bytes.NewReader(stream)))
+			if err == nil {
+				t.Fatalf("%+v: inflated without history", c)
+			}
+		}
+	}
 }
